@@ -342,7 +342,198 @@ func genC08(ctx *fw.Ctx) []fw.Case {
 		cases = append(cases, fw.Case{ID: fmt.Sprintf("modules/%d", i/mper), Run: func(r *fw.Rec) { c08ModuleBatch(r, part) }})
 	}
 	cases = append(cases, fw.Case{ID: "api/numbers-used-outside-their-function", Run: c08APIOutsideUses})
+	cases = append(cases, fw.Case{ID: "params/named-among-numbered", Run: c08ParamSpellings})
+	cases = append(cases, fw.Case{ID: "api/function-printed-edited-printed", Run: c08APIFuncPrintEditPrint})
 	return cases
+}
+
+// c08ParamSpellings writes parameter lists in which named parameters stand
+// among explicitly numbered ones (`i32 %x, i32 %0, i32 %y, i32 %1`): a named
+// parameter consumes no number. Declarations and definitions; the parser must
+// accept what LLVM accepts, give every parameter its number, and bind the %N of
+// the body to the right parameter (the body returns a weighted sum that lli
+// evaluates).
+func c08ParamSpellings(r *fw.Rec) {
+	rng := r.Ctx().Rand("c08params")
+	for round := 0; round < r.Ctx().Pick(60, 600); round++ {
+		n := 2 + rng.Intn(5)
+		var ps []string
+		var ids []int64 // expected ID per parameter, -1 for named
+		next := int64(0)
+		for i := 0; i < n; i++ {
+			if rng.Intn(2) == 0 {
+				ps = append(ps, fmt.Sprintf("i32 %%n%d", i))
+				ids = append(ids, -1)
+			} else {
+				ps = append(ps, fmt.Sprintf("i32 %%%d", next))
+				ids = append(ids, next)
+				next++
+			}
+		}
+		if next == 0 {
+			continue
+		}
+		var body strings.Builder
+		// sum of (i+1)*param_i
+		acc := "0"
+		cur := next + 1 // entry block takes number next
+		for i := 0; i < n; i++ {
+			name := fmt.Sprintf("%%n%d", i)
+			if ids[i] >= 0 {
+				name = fmt.Sprintf("%%%d", ids[i])
+			}
+			fmt.Fprintf(&body, "  %%%d = mul i32 %s, %d\n", cur, name, i+1)
+			fmt.Fprintf(&body, "  %%%d = add i32 %%%d, %s\n", cur+1, cur, acc)
+			acc = fmt.Sprintf("%%%d", cur+1)
+			cur += 2
+		}
+		fmt.Fprintf(&body, "  ret i32 %s\n", acc)
+		var args []string
+		want := 0
+		for i := 0; i < n; i++ {
+			args = append(args, fmt.Sprintf("i32 %d", 10+i))
+			want += (i + 1) * (10 + i)
+		}
+		x := "declare void @decl(" + strings.Join(ps, ", ") + ")\n" +
+			"define i32 @def(" + strings.Join(ps, ", ") + ") {\n" + body.String() + "}\n" +
+			"define i32 @main() {\n  %r = call i32 @def(" + strings.Join(args, ", ") + ")\n  %m = urem i32 %r, 251\n  ret i32 %m\n}\n"
+		okl, _, err := llvmref.Accepts(x)
+		if err != nil {
+			r.Inconclusive("llvm tool failure")
+			continue
+		}
+		if !okl {
+			r.Inconclusive("generated parameter list not valid for LLVM 14 (generator issue)")
+			continue
+		}
+		r.Eval(1)
+		m, perr, pmsg := parseGuard("c08-params", x)
+		if pmsg != "" || perr != nil {
+			what := pmsg
+			if perr != nil {
+				what = perr.Error()
+			}
+			r.Violate(fw.Violation{Key: "params/rejected", Input: x, What: "a parameter numbering LLVM accepts is rejected by the parser: " + firstLine(what)})
+			return
+		}
+		for _, f := range m.Funcs[:2] {
+			for i, p := range f.Params {
+				if ids[i] >= 0 && (!p.IsUnnamed() || p.ID() != ids[i]) {
+					r.Violate(fw.Violation{Key: "params/wrong-id", Input: x, What: fmt.Sprintf("parameter %d of %s was written %%%d and is %s", i, f.Ident(), ids[i], p.Ident())})
+					return
+				}
+			}
+		}
+		y, pp := printGuard(m)
+		if pp != "" {
+			r.Violate(fw.Violation{Key: "params/print-panic", Input: x, What: firstLine(pp)})
+			return
+		}
+		got, ok, note := lliExit(y)
+		if !ok {
+			r.Inconclusive("lli: " + note)
+			continue
+		}
+		if got != want%251 {
+			r.Violate(fw.Violation{Key: "params/wrong-binding", Input: x, What: fmt.Sprintf("the printed module computes %d, the input denotes %d: a %%N of the body is bound to another parameter", got, want%251), Observed: y})
+			return
+		}
+		r.Nontrivial(x)
+		r.Tally("params", "named-among-numbered:ok")
+	}
+}
+
+// c08APIFuncPrintEditPrint numbers a constructed function by printing it on
+// its own (Func.LLString), edits it without adding a block (an instruction put
+// in front of the others, a value replaced by a void call, an instruction
+// removed), and prints it on its own again: the text must be the text of a
+// twin that was built in its final shape and never printed before, and valid
+// for LLVM.
+func c08APIFuncPrintEditPrint(r *fw.Rec) {
+	type edit struct {
+		name string
+		fn   func(m *ir.Module, f *ir.Func)
+	}
+	vf := func(m *ir.Module) *ir.Func {
+		for _, f := range m.Funcs {
+			if f.Name() == "vf" {
+				return f
+			}
+		}
+		return nil
+	}
+	edits := []edit{
+		{"insert-value-in-front", func(m *ir.Module, f *ir.Func) {
+			b := f.Blocks[0]
+			inst := ir.NewMul(f.Params[0], f.Params[0])
+			b.Insts = append([]ir.Instruction{inst}, b.Insts...)
+		}},
+		{"insert-void-call-in-front", func(m *ir.Module, f *ir.Func) {
+			b := f.Blocks[0]
+			b.Insts = append([]ir.Instruction{ir.NewCall(vf(m))}, b.Insts...)
+		}},
+		{"remove-first-instruction-of-second-block", func(m *ir.Module, f *ir.Func) {
+			b := f.Blocks[1]
+			b.Insts = b.Insts[1:]
+		}},
+		{"insert-value-in-second-block", func(m *ir.Module, f *ir.Func) {
+			b := f.Blocks[1]
+			inst := ir.NewSub(f.Params[0], f.Params[0])
+			b.Insts = append([]ir.Instruction{inst}, b.Insts...)
+		}},
+	}
+	build := func() (*ir.Module, *ir.Func) {
+		m := ir.NewModule()
+		v := m.NewFunc("vf", types.Void)
+		_ = v
+		f := m.NewFunc("f", types.I32, ir.NewParam("", types.I32))
+		entry := f.NewBlock("")
+		a := entry.NewAdd(f.Params[0], constant.NewInt(types.I32, 1))
+		b2 := entry.NewAdd(a, constant.NewInt(types.I32, 2))
+		next := f.NewBlock("")
+		entry.NewBr(next)
+		next.NewAdd(f.Params[0], constant.NewInt(types.I32, 5)) // unused, removable
+		c := next.NewAdd(b2, constant.NewInt(types.I32, 3))
+		next.NewRet(c)
+		return m, f
+	}
+	for _, observer := range []string{"Func.LLString", "Module.String", "Func.AssignIDs"} {
+		for _, e := range edits {
+			r.Eval(1)
+			var got, want string
+			p, msg, _ := fw.Guard(func() {
+				m, f := build()
+				switch observer {
+				case "Func.LLString":
+					_ = f.LLString()
+				case "Module.String":
+					_ = m.String()
+				case "Func.AssignIDs":
+					_ = f.AssignIDs()
+				}
+				e.fn(m, f)
+				got = f.LLString()
+				m2, f2 := build()
+				e.fn(m2, f2)
+				want = f2.LLString()
+			})
+			key := "api-func-print-edit-print/" + observer + "/" + e.name
+			if p {
+				r.Violate(fw.Violation{Key: key, What: "printing a function again after an edit panics: " + firstLine(msg)})
+				continue
+			}
+			if got != want {
+				r.Violate(fw.Violation{Key: key, What: "a function numbered once (" + observer + "), edited (" + e.name + ") and printed on its own is not numbered afresh: " + firstDiffLines(want, got), Expected: want, Observed: got})
+				continue
+			}
+			if ok, lmsg, err := llvmref.Accepts("declare void @vf()\n" + got); err == nil && !ok {
+				r.Violate(fw.Violation{Key: key + "/llvm", Input: got, What: "LLVM rejects the function text: " + firstLine(lastDiag(lmsg))})
+				continue
+			}
+			r.Nontrivial(key)
+			r.Tally("api", "func-print-edit-print:ok")
+		}
+	}
 }
 
 const c08Prelude = "%vfn = type void ()\n%ifn = type i32 ()\ndeclare i32 @pers(...)\ndeclare void @vf()\ndeclare void @vv(...)\ndeclare i32 @if()\n@scratch = global i32 0\n"
